@@ -1,2 +1,153 @@
-(* C20 — placeholder while the proofs are being written. *)
-From GT Require Import ProtoModel.
+(* C20 — gogenproto: protoc gets exactly the in-scope protos, includes, mappings.
+   Property theorems only; every proof is `exact <lemma of ProtoProofs>`.
+   The model (ProtoModel.v) mirrors gogenproto/gen/generate.go of the current tree; it is tied
+   to the code by the correspondence run of ./check C20 (real CLI + recording protoc stub).
+
+   All statements hold for every tree [c_root] of any depth and size, every working directory,
+   every relative or absolute input directory, every include list (with or without prefix),
+   every setting of recurse / vt / grpc and every package oracle [pkg_of].
+   Hypotheses: [wf_node] — the tree is a file system (sibling names distinct, no "", ".", "..");
+   [dirs_ok] — the input directory and the include directories exist and are directories;
+   [run … = Ok argv] — the tool reached exec.Command (it does, by C20_one_invocation, whenever
+   PackageNameFromPath succeeds).                                                             *)
+From Coq Require Import String List Bool.
+From GT Require Import ProtoModel ProtoProofs.
+Import ListNotations.
+Local Open Scope string_scope.
+
+(* the file arguments, resolved against the working directory, are the .proto files directly
+   inside the input directory, or all of those below it with -recurse … *)
+Theorem C20_files : forall pkg_of cfg argv,
+  wf_node (c_root cfg) -> run pkg_of cfg = Ok argv ->
+  map (to_abs (c_cwd cfg)) (files_of argv) = spec_files cfg.
+Proof. exact run_files. Qed.
+
+(* … where [spec_files] lists, without repetition, exactly the paths q = input ++ r (r one
+   segment, or any non-empty r with -recurse) at which the tree holds a regular *.proto file *)
+Theorem C20_files_scope : forall cfg, wf_node (c_root cfg) ->
+  NoDup (spec_files cfg) /\ (forall q, In q (spec_files cfg) <-> in_scope cfg q).
+Proof. exact spec_files_char. Qed.
+
+(* so: each in-scope file is named exactly once, and no other file is named *)
+Theorem C20_files_exactly_once : forall pkg_of cfg argv,
+  wf_node (c_root cfg) -> run pkg_of cfg = Ok argv ->
+  forall q,
+    (in_scope cfg q -> count_occ path_eq_dec (map (to_abs (c_cwd cfg)) (files_of argv)) q = 1)
+    /\ (~ in_scope cfg q -> count_occ path_eq_dec (map (to_abs (c_cwd cfg)) (files_of argv)) q = 0).
+Proof. exact run_files_count. Qed.
+
+(* one -I per include path: the input directory, then each -include directory; plugin output
+   flags are present exactly when requested; every requested plugin — and no other — receives
+   the mappings the specification lists *)
+Theorem C20_includes : forall pkg_of cfg argv,
+  wf_node (c_root cfg) -> dirs_ok cfg -> run pkg_of cfg = Ok argv ->
+  includes_of argv = spec_includes cfg.
+Proof. exact run_includes. Qed.
+
+Theorem C20_plugins : forall pkg_of cfg argv,
+  wf_node (c_root cfg) -> dirs_ok cfg -> run pkg_of cfg = Ok argv ->
+  requests PGo argv = true /\ requests PVt argv = c_vt cfg /\ requests PGrpc argv = c_grpc cfg.
+Proof. exact run_plugins. Qed.
+
+Theorem C20_mappings : forall pkg_of cfg argv,
+  wf_node (c_root cfg) -> dirs_ok cfg -> run pkg_of cfg = Ok argv ->
+  forall pl, mappings_of pl argv =
+             if requested cfg pl then flat_map (spec_mappings_of pkg_of cfg) (include_paths cfg) else [].
+Proof. exact run_mappings. Qed.
+
+(* … where, per include path (directory a, optional prefix), [spec_mappings_of] lists, each
+   relative path once, exactly the pairs (r, k): a ++ r is a regular *.proto file below a that
+   does not declare go_package, and k is the prefix joined with the directory of r when a prefix
+   was given, the Go package of the directory of a ++ r otherwise *)
+Theorem C20_mappings_scope : forall pkg_of cfg inc, wf_node (c_root cfg) ->
+  NoDup (map fst (spec_mappings_of pkg_of cfg inc))
+  /\ (forall r k, In (r, k) (spec_mappings_of pkg_of cfg inc) <-> mapping_wanted pkg_of cfg inc r k).
+Proof. exact spec_mappings_of_char. Qed.
+
+(* exactly one invocation: Run hands one argument vector to exec.Command, and it gets there
+   whenever the directories exist and PackageNameFromPath does not fail *)
+Theorem C20_at_most_one_invocation : forall pkg_of cfg, length (invocations pkg_of cfg) <= 1.
+Proof. exact invocations_le_one. Qed.
+
+Theorem C20_one_invocation : forall pkg_of cfg,
+  wf_node (c_root cfg) -> dirs_ok cfg -> (forall d, pkg_of d <> Err) ->
+  exists argv, invocations pkg_of cfg = [argv] /\ run pkg_of cfg = Ok argv.
+Proof. exact invocations_exactly_one. Qed.
+
+(* the same, from the executable hypotheses the correspondence run evaluates on every case *)
+Theorem C20_checked : forall pkg_of cfg argv,
+  wf_nodeb (c_root cfg) = true -> dirs_okb cfg = true -> run pkg_of cfg = Ok argv ->
+  map (to_abs (c_cwd cfg)) (files_of argv) = spec_files cfg
+  /\ includes_of argv = spec_includes cfg
+  /\ (forall pl, requests pl argv = requested cfg pl)
+  /\ (forall pl, mappings_of pl argv = spec_mappings pkg_of cfg pl).
+Proof. exact run_checked. Qed.
+
+(* ------------------------------------------------------------------ non-vacuity *)
+Definition ex_root : node :=
+  Dir "" [Dir "w" [Dir "m" [File "go.mod" false true;
+    Dir "inc" [File "j.proto" false true; Dir "x" [File "i.proto" false true; File "k.proto" true true]];
+    Dir "protos" [File "a.proto" false true; File "b.proto" true true;
+                  Dir "d.proto" [File "e.proto" false true];
+                  File "l.proto" false false;
+                  Dir "protos" [File "a.proto" false true];
+                  File "readme.txt" false true]]]].
+Definition ex_pkg (d : path) : result string := Ok (String.concat "/" ("example.com" :: skipn 1 d)).
+Definition ex_cfg (recurse : bool) : config :=
+  {| c_root := ex_root; c_cwd := ["w"; "m"]; c_input := PAbs ["w"; "m"; "protos"];
+     c_recurse := recurse; c_vt := true; c_grpc := false;
+     c_includes := [(PRel [".."; "m"], None); (PRel ["inc"], Some ["github.com"; "foo"])] |}.
+
+(* hypotheses hold of a tree with a sub directory named like the input directory, a directory
+   named *.proto, a symlink named *.proto, an absolute input directory met again inside the
+   walk of an include path (its parent), and a prefixed include *)
+Example C20_example_hyps :
+  wf_node ex_root /\ dirs_ok (ex_cfg true) /\ (forall d, ex_pkg d <> Err).
+Proof.
+  split; [apply wf_nodeb_sound; vm_compute; reflexivity|].
+  split; [apply dirs_okb_sound; vm_compute; reflexivity|]. intros d; discriminate.
+Qed.
+
+Example C20_example_run :
+  (match run ex_pkg (ex_cfg false) with Ok a => map render_arg a | Err => [] end) =
+  ["--go_out=."; "--go_opt=paths=source_relative"; "--fatal_warnings"; "--go-vtproto_out=.";
+   "--go-vtproto_opt=paths=source_relative,features=marshal+unmarshal+size+equal+clone+pool";
+   "-I=/w/m/protos";
+   "--go_opt=Ma.proto=example.com/m/protos"; "--go-vtproto_opt=Ma.proto=example.com/m/protos";
+   "--go_opt=Md.proto/e.proto=example.com/m/protos/d.proto";
+   "--go-vtproto_opt=Md.proto/e.proto=example.com/m/protos/d.proto";
+   "--go_opt=Mprotos/a.proto=example.com/m/protos/protos";
+   "--go-vtproto_opt=Mprotos/a.proto=example.com/m/protos/protos";
+   "-I=/w/m";
+   "--go_opt=Minc/j.proto=example.com/m/inc"; "--go-vtproto_opt=Minc/j.proto=example.com/m/inc";
+   "--go_opt=Minc/x/i.proto=example.com/m/inc/x"; "--go-vtproto_opt=Minc/x/i.proto=example.com/m/inc/x";
+   "--go_opt=Mprotos/a.proto=example.com/m/protos"; "--go-vtproto_opt=Mprotos/a.proto=example.com/m/protos";
+   "--go_opt=Mprotos/d.proto/e.proto=example.com/m/protos/d.proto";
+   "--go-vtproto_opt=Mprotos/d.proto/e.proto=example.com/m/protos/d.proto";
+   "--go_opt=Mprotos/protos/a.proto=example.com/m/protos/protos";
+   "--go-vtproto_opt=Mprotos/protos/a.proto=example.com/m/protos/protos";
+   "-I=/w/m/inc";
+   "--go_opt=Mj.proto=github.com/foo"; "--go-vtproto_opt=Mj.proto=github.com/foo";
+   "--go_opt=Mx/i.proto=github.com/foo/x"; "--go-vtproto_opt=Mx/i.proto=github.com/foo/x";
+   "/w/m/protos/a.proto"; "/w/m/protos/b.proto"].
+Proof. vm_compute. reflexivity. Qed.
+
+Example C20_example_scope :
+  spec_files (ex_cfg false) = [["w"; "m"; "protos"; "a.proto"]; ["w"; "m"; "protos"; "b.proto"]]
+  /\ spec_files (ex_cfg true) =
+     [["w"; "m"; "protos"; "a.proto"]; ["w"; "m"; "protos"; "b.proto"];
+      ["w"; "m"; "protos"; "d.proto"; "e.proto"]; ["w"; "m"; "protos"; "protos"; "a.proto"]]
+  /\ spec_mappings ex_pkg (ex_cfg true) PGrpc = []
+  /\ length (spec_mappings ex_pkg (ex_cfg true) PVt) = 10.
+Proof. vm_compute. repeat split. Qed.
+
+Print Assumptions C20_files.
+Print Assumptions C20_files_scope.
+Print Assumptions C20_files_exactly_once.
+Print Assumptions C20_includes.
+Print Assumptions C20_plugins.
+Print Assumptions C20_mappings.
+Print Assumptions C20_mappings_scope.
+Print Assumptions C20_at_most_one_invocation.
+Print Assumptions C20_one_invocation.
+Print Assumptions C20_checked.
